@@ -502,10 +502,7 @@ def run_c10(chk):
             k1, k2 = rng.choice(L.KINDS), rng.choice(['plain', 'hdrs'])
             d = ombott.app
             if not getattr(d, '_verif_routes', False):
-                tmp = L.make_app()
-                for pattern, route in tmp.router.routes.items():
-                    for m in route.methods.values():
-                        d.router.add(route.rule, m.name, m.handler)
+                L.make_app(app=d)          # handlers that use the default application's own request/response
                 d._verif_routes = True
             reqs, apps = [[(k1, 'A')], [(k2, 'B')]], [a, d]
             flat = None
@@ -575,14 +572,16 @@ def run_c10(chk):
                    [['plain_a', 'plain_b', 'body_a'], ['body_b', 'plain_a'], ['plain_a', 'body_b', 'body_b', 'plain_a']], progs, b0)
     if not ok_seq:
         raise core.MachineryError('as-is model violates Isolation for alternating sequential calls')
-    r, ok_nested = mc(chk, 'C10 nested call (as-is closure model)', 1, [['nested_a_b']], progs, b0, expect_hold=False)
-    r2, ok_threads = mc(chk, 'C10 two applications on two threads (as-is closure model)', 2, [['plain_a'], ['plain_b']], progs, b0,
-                        expect_hold=False, workers=8)
+    r, ok_nested = mc(chk, 'C10 nested call in one thread (current-store model)', 1, [['nested_a_b']], progs, b0, expect_hold=False)
+    r2, ok_threads = mc(chk, 'C10 two applications on two threads (current-store model)', 2, [['plain_a'], ['plain_b'], ['body_b']], progs, b0,
+                        expect_hold=True, workers=8)
+    if not ok_threads:
+        raise core.MachineryError('the per-thread current-store model violates Isolation for two applications on two threads')
     chk.extra['design_level'] = {'alternating_calls_hold': ok_seq, 'nested_call_holds': ok_nested,
                                  'two_apps_two_threads_hold': ok_threads}
-    if not ok_nested or not ok_threads:
-        chk.note('design level: TLC finds Isolation violated in the as-is closure model for nested calls / two applications on two '
-                 'threads (expected: this is the listed finding C10-closure)')
+    if not ok_nested:
+        chk.note('design level: TLC finds Isolation violated in the current-store model for a nested call in one thread '
+                 '(expected: the listed finding C10-same-thread); two applications on two threads: holds')
     chk.exhaustive = True
     judge(chk, 'C10', traces, closure_known=True)
     chk.extra['assumptions'] = ['pre-emption at accessor calls', 'the module-level default application takes part as one of the applications']
